@@ -50,9 +50,20 @@ class Boom(Exception):
 
 # --------------------------------------------------------------------------- translator (tie T)
 
+LAST_GOOD = os.path.join(C.BUILD, "C20_last_good_Settings_gen.v")
+GEN = os.path.join(C.COQ, "Gen", "Settings_gen.v")
+
+
 def pregen(out):
     from harness.translators import settings_tr
-    info = settings_tr.generate(C.REPO)          # raises common.Unparsed outside the subset
+    try:
+        info = settings_tr.generate(C.REPO)          # raises common.Unparsed outside the subset
+    except C.Unparsed:
+        # no model of the current source: the theorem files must not be judged on whatever table an earlier
+        # run left behind -> put back the last table whose obligations were discharged
+        if os.path.exists(LAST_GOOD) and open(LAST_GOOD).read() != open(GEN).read():
+            open(GEN, "w").write(open(LAST_GOOD).read())
+        raise
     if out is not None:
         out.extra["translated_classes"] = len(info["classes"])
         out.extra["translated_exports"] = len(info["exports"])
@@ -247,6 +258,8 @@ class World:
         qs = []
         if hasattr(k, "on"):
             qs += [(cid, "on", ()), (cid, "off", ())]
+        if hasattr(k, "is_default"):
+            qs.append((cid, "is_default", ()))
         if hasattr(k, "num_probe_vectors"):
             qs.append((cid, "num_probe_vectors", ()))
         if hasattr(k, "value"):
@@ -414,6 +427,8 @@ def spec_enter(W, cid, kw, vis):
         on = W.default[(c, "on", ())] if state is None else state
         new[(c, "on", ())] = on
         new[(c, "off", ())] = not on
+        if (c, "is_default", ()) in new:
+            new[(c, "is_default", ())] = state is None
     if k in ("flag", "flag_npv"):
         only("state", "num_probe_vectors") if k == "flag_npv" else only("state")
         flag(cid, kw.get("state", True))
@@ -957,17 +972,27 @@ def run(out, ctx):
         out.count(k, v)
     # ---- a failed proof obligation must come with a program, or be reported without one
     if not props_ok:
-        hit = " ".join(f["key"] + " " + json.dumps(f.get("case"), default=str) for f in out.failures)
+        keys = [f["key"] for f in out.failures if not f.get("no_input")]
         for c in failing:
             if c in known_external:
                 continue
-            if c not in hit:
+            # exposed = some failing public query belongs to the class or to one of its documented composites
+            if not any((":%s." % k) in key for key in keys for k in _closure(c)):
                 w = wits.get(c) or {}
                 out.fail("obligation:%s" % c,
                          "the restore obligation computed on the regenerated source fails for %s (%s; path: %s) but no program "
                          "over the public queries exposes it" % (c, w.get("why"), "; ".join(w.get("path", []))),
                          case=dict(cls=c, witness=w), no_input=True)
     out.extra["tolerances"] = "exact comparison of discrete values"
+    if unparsed:
+        out.ties["C"] = "ok (real classes vs reference semantics of the property; model skipped: no table for this source)" \
+            if not out.failures else "disagreements"
+    else:
+        out.ties["C"] = "ok" if not any(f["key"].startswith(("corr:", "table:")) for f in out.failures) else "disagreements"
+    if props_ok and not unparsed and os.path.exists(GEN):
+        txt = open(GEN).read()
+        if not os.path.exists(LAST_GOOD) or open(LAST_GOOD).read() != txt:
+            open(LAST_GOOD, "w").write(txt)
 
 
 # --------------------------------------------------------------------------- replay
